@@ -395,6 +395,14 @@ func analyse(p *pkgInfo, f *ast.File, name string) {
 		})
 	}
 	ast.Inspect(f, func(n ast.Node) bool {
+		if ls, ok := n.(*ast.LabeledStmt); ok {
+			if sel, ok := ls.Stmt.(*ast.SelectStmt); ok {
+				labelledSelect[sel] = true
+			}
+		}
+		return true
+	})
+	ast.Inspect(f, func(n ast.Node) bool {
 		switch x := n.(type) {
 		case *ast.GoStmt:
 			if _, ok := x.Call.Fun.(*ast.FuncLit); ok {
@@ -666,6 +674,7 @@ func instrument(p *pkgInfo, f *ast.File, src []byte, simImport string) []byte {
 					txt := func(e ast.Node) string { return render(e, fn) }
 					hasDefault := "false"
 					var cases []string
+					var hoist []string
 					idx := 0
 					for _, c := range x.Body.List {
 						cl := c.(*ast.CommClause)
@@ -684,6 +693,12 @@ func instrument(p *pkgInfo, f *ast.File, src []byte, simImport string) []byte {
 							case *ast.AssignStmt:
 								u := unparen(cm.Rhs[0]).(*ast.UnaryExpr)
 								ch := txt(u.X)
+								if hasCall(u.X) {
+									// evaluated once, before the select, as Go does (the value is needed twice)
+									tmp := fmt.Sprintf("zzc%d", idx)
+									hoist = append(hoist, tmp+" := "+ch)
+									ch = tmp
+								}
 								cases = append(cases, "zzsim.RecvCase("+ch+")")
 								tok := cm.Tok.String()
 								if len(cm.Lhs) == 2 {
@@ -697,8 +712,13 @@ func instrument(p *pkgInfo, f *ast.File, src []byte, simImport string) []byte {
 						}
 						add(off(cl.Case), off(cl.Colon)+1-off(cl.Case), hdr)
 					}
+					pre := ""
+					if len(hoist) > 0 {
+						pre = "{ " + strings.Join(hoist, "; ") + "; "
+						add(off(x.Body.Rbrace)+1, 0, " }")
+					}
 					add(off(x.Select), off(x.Body.Lbrace)+1-off(x.Select),
-						"switch zzi, zzv, zzok := zzsim.Select("+hasDefault+strings.Join(append([]string{""}, cases...), ", ")+"); zzi {")
+						pre+"switch zzi, zzv, zzok := zzsim.Select("+hasDefault+strings.Join(append([]string{""}, cases...), ", ")+"); zzi {")
 					if hasDefault == "false" {
 						// keeps a select whose cases all return a terminating statement
 						add(off(x.Body.Rbrace), 0, "default: panic(\"zzsim: select returned no case\") ")
@@ -869,13 +889,13 @@ func instrument(p *pkgInfo, f *ast.File, src []byte, simImport string) []byte {
 						hdr := ""
 						switch {
 						case x.Key == nil:
-							hdr = " { _, zzok := zzsim.Recv2(" + ch + "); if !zzok { break }; "
+							hdr = " zzch := " + ch + "; ; { _, zzok := zzsim.Recv2(zzch); if !zzok { break }; "
 						case x.Tok == token.DEFINE:
 							k := string(src[off(x.Key.Pos()):off(x.Key.End())])
-							hdr = " { " + k + ", zzok := zzsim.Recv2(" + ch + "); if !zzok { break }; "
+							hdr = " zzch := " + ch + "; ; { " + k + ", zzok := zzsim.Recv2(zzch); if !zzok { break }; "
 						default:
 							k := string(src[off(x.Key.Pos()):off(x.Key.End())])
-							hdr = " { var zzok bool; " + k + ", zzok = zzsim.Recv2(" + ch + "); if !zzok { break }; "
+							hdr = " zzch := " + ch + "; ; { var zzok bool; " + k + ", zzok = zzsim.Recv2(zzch); if !zzok { break }; "
 						}
 						// the body gets a block of its own: `for j := range ch { j := j; ... }` is idiomatic
 						add(off(x.For)+3, off(x.Body.Lbrace)+1-(off(x.For)+3), hdr+"{ ")
@@ -1137,6 +1157,20 @@ func isAtomicLoad(p *pkgInfo, c *ast.CallExpr) bool {
 	return strings.HasPrefix(obj.Name(), "Load")
 }
 
+func hasCall(e ast.Expr) bool {
+	found := false
+	ast.Inspect(e, func(n ast.Node) bool {
+		if _, ok := n.(*ast.CallExpr); ok {
+			found = true
+		}
+		return !found
+	})
+	return found
+}
+
+// labelled: set by analyse/instrument for select statements that carry a label
+var labelledSelect = map[*ast.SelectStmt]bool{}
+
 func selectRewritable(x *ast.SelectStmt) bool {
 	n := 0
 	for _, c := range x.Body.List {
@@ -1160,6 +1194,8 @@ func selectRewritable(x *ast.SelectStmt) bool {
 			}
 			if u, ok := unparen(cm.Rhs[0]).(*ast.UnaryExpr); !ok || u.Op != token.ARROW {
 				return false
+			} else if labelledSelect[x] && hasCall(u.X) {
+				return false // would need a block around a labelled statement
 			}
 		default:
 			return false
